@@ -38,10 +38,34 @@ add("C05", "fault_enumeration",
     "Crash: `veryl <cmd>` is traced once under strace; every mutating system call of its main thread is a crash point; for each point the command is re-run from the same snapshot and killed immediately before that call, an optional follow-up edit (revert with preserved old mtime / new mtime / edit another file) is applied, `veryl build` runs, and exit status, diagnostics and every output of a clean build of the same sources must be reproduced. Damage: every file under .build x {delete, truncations, XOR of every byte position, swap with another valid blob}, then build/check: no panic and the clean build's result.",
     "Trusted base: strace's injection (the process dies before the n-th call of that syscall), a process death cannot tear one write(2), only the main thread mutates files. Needs /usr/bin/strace and permission to ptrace (present in the sandbox). Budget caps are reported.",
     engine="E4-crash-damage")
+add("C06", "exploration",
+    "exhaustive enumeration of (file content x preceding-file context x capture offset x restore offset) over a catalogue of declaration kinds and the corpus; cold run vs warm run with the file restored from its fragment, full analyzer-state dumps compared",
+    "Cases = 35 catalogue entries (one per declaration kind / combination the fragment codec must carry: generics, imports, $sv references, attributes, unsafe blocks, doc comments, enums, structs, modports, bind, connect, embed/include, clock domains, every literal form; each with an optional dependency file and a user file) plus the 90 analysable corpus files; contexts = {0,1,2} fixed pool files in front x dependency order, plus a tail file. For every capture context i and restore context j a cold run of j is compared with a warm run of j in which the file is restored from the bytes captured under i (fresh threads): byte equality, after pass1 and after post_pass1, of the analyzer's public dumps and of a deep dump of every symbol with all id-bearing fields, references, token scopes, literals, scope tree, attributes, unsafe blocks, definitions, doc comments, text table and id counters; equal diagnostics of later passes; equal emitted SV of every freshly parsed file. A refusal is accepted only at capture.",
+    "Trusted base: the canonicalisation of {:?} dumps (interned ids replaced by what they denote, map entries sorted). Dependency projects and $std, damaged fragments (C05) and the CLI level (C04) are not in this check.")
+add("C10", "exploration",
+    "exhaustive enumeration of all lexeme strings up to length 3/4, all corpus prefixes and single-character deletions, nesting ladders to depth 2^17 and long flat runs, each parsed by the real parser in a guarded subprocess",
+    "(a) all strings of <= 3 lexemes over an 88-lexeme alphabet (keywords, every operator class, comment/string/escape openers, multi-byte characters, NUL, CR, BOM, malformed number forms), joined with and without blanks, and length 4 over a 25-lexeme core; a metamorphic shift oracle (the same string behind a multi-byte comment must shift every span by the comment's byte length); (b) every prefix and every single-character deletion of the 94 corpus files; (c) nesting ladders for 29 constructs at depths 2^0..2^17 plus bisection to the exact accept/reject depth; (d) 31 flat constructs of 10^3..10^5 tokens. Every parse runs in a worker subprocess on an 8 MiB thread with a wall cap; on a worker death the culprit is isolated and re-run alone. Oracle: Ok or Err(ParserError) whose label spans lie in [0, len+1] on character boundaries; no panic, abort, stack overflow or timeout. A stack-overflow candidate is confirmed with a release-profile parser binary before it is reported.",
+    "Trusted base: the worker protocol. The harness is built at opt-level 1 (deeper frames than release), hence the confirmation rule. Invalid UTF-8 cannot be passed (the API takes &str).")
+add("C11", "exploration",
+    "exhaustive enumeration of all single token edits of the corpus (and edit pairs on small files), an option axis and all small multi-file project shapes through the real pipeline in guarded subprocesses; any panic/abort/overflow is a violation",
+    "Single edits of all 228 files of testcases/veryl and testcases/error (delete / duplicate a token, replace an identifier by every other identifier of the file, an undefined one or a raw keyword identifier, replace numbers and widths by corner values, swap adjacent tokens, drop a whole statement/declaration/port/arm: 188 417 variants), edit pairs on the 20 smallest files, the unchanged files under 6 build/format option sets, and every acyclic reference graph over 3-4 declarations (module, package, generic package; instance, const path, import, generic argument edges) in every assignment to 2-3 files and every file order. Each variant that still parses runs pass1, format, post_pass1, pass2, post_pass2, emit (when no error) and diagnostic rendering on a fresh 8 MiB thread in a worker subprocess. New crash signatures are minimised automatically and re-run with the real veryl binary.",
+    "Trusted base: the worker protocol. Signatures name the enclosing function of the panic site (stable against line shifts). Stack overflows are confirmed on a 16x stack (unbounded recursion) - a release-profile reproduction is not automated. Timeouts are observations.")
 add("C13", "exploration",
     "exhaustive enumeration of a finite design x comment-slot x layout-configuration family through the real emitter; every decoded source-map entry checked against the raw texts",
     "90 testcases plus a generated family (6 base designs x every comment slot x 9 comment kinds incl. multi-byte and multi-line) x 16 layout configurations go through the real Parser/Analyzer/Emitter/SourceMap; the map is decoded twice (sourcemap crate and an own VLQ reader) and for every entry the output text at (line, column) must start with the entry's name and the source position must be the start of a token or comment found by an own scanner of the raw source; entries are ordered; every output line showing a source identifier has an entry.",
     "Trusted base: the own source scanner and VLQ decoder. Columns are character columns. Cases where the emitter itself panics are counted as skipped (that is C11's subject).")
+add("C14", "exploration",
+    "exhaustive enumeration of a finite family of abstract combinational designs rendered to Veryl and analysed by the real analyzer, against a reference bit-dependency graph computed from the abstract design (both directions)",
+    "Designs over bits a[0] a[1] b[0] b[1] c, a data input and a condition input with <= 3 processes with disjoint driven bits: assign of const/input/bit/&/reduction/ternary/function call/copy/concatenation; always_comb with reassignment, read-before-write, if/else on input or variable bit, pre-assignment plus conditional overwrite; always_ff; instances of feed-through, registered, constant and partial feed-through children; ring families (21 316 designs quick, 158 112 thorough, latch-free and singly driven = the region in which the repository's non-ignored tests assert exactness). Reference: per-process symbolic evaluation in statement order (a read sees the latest write on the path), if merges arms and adds condition reads; loop iff the bit graph has a cycle. A combinational_loop diagnostic must be present iff the reference has a cycle. The reference must first reproduce 22 transcribed repository tests.",
+    "Trusted base: the reference bit graph (validated against the repository's own non-ignored tests at the start of every run). Two sub-families reach classes the maintainers themselves list as inexact (#[ignore = comb-loop migration ...]); they are known findings.")
+add("C15", "exploration",
+    "exhaustive enumeration of a finite family of abstract write/branch designs rendered to Veryl and analysed by the real analyzer, against per-bit writer sets and per-path write sets computed from the abstract design (both directions)",
+    "Signals x: logic<4>, y: logic<2> (var or output port), inputs c0 c1 s. Families: 2-3 simple writers (assign, instance output, always_comb, always_ff x wrapper {plain, if-no-else, if/else other bit, case-no-default, for, if/else both, switch both} x target range) plus a reader; one always_comb/always_ff whose body is EVERY statement tree with n leaves (ranged writes, for with constant bounds; if/else-if/case/switch with 1-2 arms with and without default; nesting <= 2) x 7 contexts; partial writes of an output port (27 375 designs quick, 1 074 503 thorough). Oracle: multiple_assignment iff some bit has two processes; uncovered_branch iff an always_comb writes a bit on some but not all paths; unassign_variable iff nothing is assigned, a read bit is never assigned, or a bit is read before it is assigned on the same path. The reference must first reproduce 36 transcribed repository tests.",
+    "Trusted base: the reference (validated against the repository's own tests at the start of every run). Where a block both latches and reads a bit the third clause is ambiguous and not compared (counted). Designs are analysed in batches and every disagreeing design again alone; only stand-alone results are reported.")
+add("C16", "exploration",
+    "exhaustive enumeration of a finite family of abstract two-clock-domain designs rendered to Veryl and analysed by the real analyzer, against a reference domain propagation computed from the abstract design (both directions)",
+    "One module with clocks/resets in 'a and 'b, annotated and un-annotated inputs/outputs, variables and an interface instance each annotated 'a, 'b or not at all, and 1-3 items in textual order (assign of a signal or &, always_comb with if, always_ff on clock a or b, instance of a one-domain child, instance of a two-domain child), each optionally inside unsafe (cdc) (19 834 designs quick, 760 794 thorough). Reference: a signal has its explicit domain, else its driver's domain wherever the driver is placed, else the implicit domain; mismatch_clock_domain is expected iff some item outside unsafe (cdc) joins two different domains. The reference must first reproduce 15 transcribed repository tests.",
+    "Trusted base: the reference domain flow. Disagreements are attributed to the two known order/instance-port limitations only if an explicit model of those limitations reproduces the analyzer's verdict; anything else is reported as unexplained.")
 add("C17", "exploration",
     "exhaustive enumeration of operators x widths x signedness x all 4-state operand values (small widths) and all pairs of a corner alphabet (wide), on the real evaluator, against an IEEE 1800 reference (R1)",
     "Every operator of the analyzer's constant evaluator (10 unary, 25 binary incl. `as`) on the real Op::eval_value_unary/binary and Value::* for operand widths {1..3}^2 (quick) / {1..4}^2 (thorough) x signedness^2 x every call context an outer context of 0..8 bits produces x ALL 4-state operand values; all pairs of a 20-27 value corner alphabet (incl. x/z patterns, word-boundary one-hots) at widths {31,32,33,63,64,65,127,128,129,255,256}; Value::expand/trunc/select/concat across the 64-bit representation switch; U64-vs-BigUint agreement on every value both can hold; and whole one- and two-operator expressions through the real parser + analyzer (context propagation) compared with R1 on the expression tree.",
@@ -69,6 +93,10 @@ add("C25", "exploration",
     "exhaustive enumeration of all typed DAG project shapes up to n files x target/sourcemap/filelist settings and collision layouts, built by the real CLI, against an oracle derived from the abstract project",
     "All labelled typed DAGs (package/interface/module nodes; import, scoped reference, instance, modport edges) on <= 3 (quick) / 4 (thorough) files x spellings, plus multi-declaration files, tests/examples/path dependency/alias/embed/empty/comment-only extras, 6 collision layouts, x 27 combinations of target {source, directory, bundle} x sourcemap_target x filelist_type go through the real `veryl build` and Metadata::paths. Oracle: no duplicate filelist line; listed = emitted; for every reference edge u->v, v precedes u; every emitted source appears in exactly one output; all dst/map paths pairwise distinct.",
     "Trusted base: the abstract project generator; outputs are attributed to sources by a marker comment veryl copies into its output.")
+add("C26", "exploration",
+    "exhaustive enumeration of all 96 option combinations for every design of corpus + hostile-comment + inside/outside families through the real emitter; token-stream oracles and exhaustive behavioural comparison (R2) for expand_inside_operation",
+    "Every design (90 corpus files, CRLF copies, a base design with one block or line comment inserted at every token gap, 46 generated inside/outside/case modules over all items and item pairs) is emitted under all 96 combinations of strip_comments x newline_style x indent_width x max_width x vertical_align x expand_inside_operation. An own SV tokenizer (comments are tokens) checks: strip_comments leaves the code-token stream identical and removes only comments; newline_style is byte-identical after normalising CRLF; layout options leave code tokens identical; for expand_inside_operation, where tokens differ, both texts are elaborated with the reference SV interpreter R2 and compared module by module on all input values on every variable. A configuration-dependent emitter panic is a violation.",
+    "Trusted base: the SV tokenizer (c26_svlex.rs) and R2. A comment surviving strip_comments after hoisted imports is an observation (the statement says it only removes comments), not a verdict.")
 add("C27", "exploration",
     "exhaustive enumeration of a (setup x single damage) state matrix; check mode and write mode run on twins of the same snapshot with the real CLI and are compared",
     "States = {target x sourcemap settings, exclude_std on/off} x {edit a source, add a source, delete/hand-edit/truncate an output (root, dependency, $std, bundle), delete/edit a source map, delete/edit the filelist, unformatted sources}: 135 build + 45 fmt states quick, 1130 + 141 thorough. For each state twin A runs `veryl build --check` / `veryl fmt --check` and twin B runs the write mode from the same snapshot; check mode exits 0 iff the write mode changes no emitted file (.sv, .sv.map, bundle) / no source file.",
@@ -92,6 +120,10 @@ add("C32", "model_checking",
     "A native-test project (shared DUT, $tb::random handles with equal and different names and types, $display, a deliberately failing $assert, a $comp instance exposing its instance seed) is run through the real `veryl test` for seeds {0,1,2^64-1} x workers {1,2,3} x ALL n! dispatch orders (imposed through .build/test_timings) x ALL w^n pop schedules (imposed by the hook and validated against the hook's pop log), plus timing-file shapes, text report mode and the default cc backend; every test's status, message and captured output must equal the 1-worker run with the same seed. RNG: get/get_range for widths 1..4(6) x signedness x ALL (min,max) pairs x first 64 draws x seeds x handle names at library level, boundary widths {31,32,33,63,64} with extreme bounds, and through generated testbenches at CLI level: every draw within bounds, identical streams for equal (seed, handle).",
     "Trusted base: the pop hook (add-only, cfg(veryl_verif), repo commit 878d807). After a pop, test bodies run on real threads; their relative progress is not scheduled (bodies are long enough to overlap). One project shape, <= 3 workers.",
     engine="E5-schedule")
+add("C35", "exploration",
+    "exhaustive enumeration of widths x corner/walking/all-small values x engine configurations x native transports for mirror/observer/parameter/method components on the real simulator; full product-state exploration of 5 component/FF timing topologies",
+    "Real #[test] modules instantiating $comp components are driven through Simulator::{set,step,get,call_component_method} under every engine configuration x transports {static registry with a raw-ABI guest, dlopen of a cdylib written with the veryl-component guest library}: 14 widths x per-word corner alphabet in all combinations + single-bit walkers + all values for widths <= 4 (2260 values) must cross the boundary with every bit and X/Z mask bit intact, in both directions, for ports, parameters and method arguments/results; timing: a 2-bit stimulus drives mirror||FF, FF after mirror, mirror after FF, mirror after mirror, comb after mirror, every triple of letters checked against RTL twins and the stimulus history (pre-edge read, outputs visible together with FF updates).",
+    "NOT CHECKED: the WebAssembly transport clause (no wasm32 target in the sandbox, no prebuilt .wasm in the repository) - stated in the evidence assumptions. The RTL-twin comparison uses only fully known or all-X letters because the 4-state interpreter's own flip-flop alters partially unknown values (counted, reported to DESIGN.md).")
 add("C36", "exploration",
     "exhaustive enumeration of 4-state values x widths through the real Value<->svLogicVecVal conversions against the Annex H table; all input sequences to depth 3/4 on 20 designs x engines with every VCD sample compared with the simulator's own value",
     "Vec<SvLogicVecVal>::from(&Value) and Value::from(&[SvLogicVecVal]) for all 4-state values x signed flag at widths 1..7 (quick) / 1..9 (thorough), corner alphabets and walking 0/1/x/z at every bit position for widths {31..129} straddling the 32-bit word boundaries, word vectors of 1..5 words: Annex H encoding bit by bit, padding bits, word count, round trip; the cosim_set/cosim_get bodies around a real simulator at 12 widths x 4 engines. Dumps: 20 designs (counters, 65/129/200-bit registers, arrays, struct/enum, hierarchy, 4-state, tri-state) on every engine, all input sequences over a 5-/6-letter alphabet to depth 3/4, driven exactly like testbench.rs, dumped with the real WaveDumper, parsed with the vcd crate: header, times and every variable at every time equal Simulator::get_var right after that dump.",
